@@ -110,6 +110,8 @@ fn main() {
         #[cfg(feature = "compiler")]
         "scanflags" => incan_verif_kani::tcreplay::scanflags_main(&args[2..]),
         #[cfg(feature = "compiler")]
+        "lexlayout" => incan_verif_kani::tcreplay::lexlayout_main(&args[2..]),
+        #[cfg(feature = "compiler")]
         "fmtcli" => incan_verif_kani::tcreplay::fmtcli_main(&args[2..]),
         #[cfg(feature = "compiler")]
         "fmtrt" => incan_verif_kani::tcreplay::fmtrt_main(&args[2..]),
